@@ -30,6 +30,12 @@ Inductive case :=
    obs = result and getTime() after each call; fin = getTime, 8 UTC fields, valueOf, 8 local fields after the
    history; iso = toISOString() then (compared for years 0..9999, where model = spec) *)
 | CHist (off : Z) (t : option Z) (ops : list (Z * list (option Z))) (obs fin : list (option Z)) (iso : list Z)
+(* the same kind of history with EVERY observer called on the one Date object before the first call and again after
+   every call: steps = for the start and after each setter (value: the start's getTime() / the setter's result;
+   fin as in CHist; iso = toISOString() with toJSON() and JSON.stringify folded in; back = Date.parse(toISOString())).
+   An observer may not remember anything across a mutator (incl. setTime, which has its own code path) *)
+| CHistAll (off : Z) (t : option Z) (ops : list (Z * list (option Z)))
+           (steps : list (option Z * list (option Z) * list Z * option Z))
 (* Date.parse(s) / new Date(s).getTime() on a full-form ISO string *)
 | CParse (s : list Z) (obs : option Z)
 (* conversions counted as in CConv, with arguments beyond the setter's parameter list: those are never converted *)
@@ -82,6 +88,17 @@ Definition iso_expect (o : option Z) : list Z := match o with Some t => toISO t 
 Definition hist_eqb (a b : list (option Z) * list (option Z) * list Z) : bool :=
   loz_eqb (fst (fst a)) (fst (fst b)) && loz_eqb (snd (fst a)) (snd (fst b)) && zlist_eqb (snd a) (snd b).
 
+Definition step_t := (option Z * list (option Z) * list Z * option Z)%type.
+Definition step_expect (off : Z) (s : option Z) : step_t :=
+  (s, fin_expect off s, iso_in s (iso_expect s), match iso_in s [0] with [] => None | _ => s end).
+(* the ISO text and its parse are compared for years 0..9999 (the state the model predicts decides) *)
+Definition step_filter (p : option Z * step_t) : step_t :=
+  let '(s, (v, fin, iso, back)) := p in (v, fin, iso_in s iso, match iso_in s [0] with [] => None | _ => back end).
+Definition step_eqb (a b : step_t) : bool :=
+  let '(v, fin, iso, back) := a in let '(v', fin', iso', back') := b in
+  oz_eqb v v' && loz_eqb fin fin' && zlist_eqb iso iso' && oz_eqb back back'.
+Definition steps_eqb (a b : list step_t) : bool := list_eqb step_eqb a b.
+
 Definition verdict (c : case) : Z * Z :=
   match c with
   | CClip t obs => judge oz_eqb obs (ctor_model t) (TimeClip t) 1
@@ -113,6 +130,13 @@ Definition verdict (c : case) : Z * Z :=
       judge hist_eqb (obs, fin, iso_in lm iso)
             (dup hm, fin_expect off lm, iso_in lm (iso_expect lm))
             (dup hs, fin_expect off ls, iso_in ls (iso_expect ls))
+            (hist_class_z off t ops')
+  | CHistAll off t ops steps =>
+      let ops' := qops ops in
+      let sm := t :: set_hist (set_model_z off) t ops' in
+      let ss := t :: set_hist (set_spec_z off) t ops' in
+      if negb (Nat.eqb (length steps) (length sm)) then (3, 0) else
+      judge steps_eqb (map step_filter (combine sm steps)) (map (step_expect off) sm) (map (step_expect off) ss)
             (hist_class_z off t ops')
   | CParse s obs => judge oz_eqb obs (parseISO s) (parseISO s) 0
   | CConvS id t args n =>
